@@ -162,6 +162,13 @@ var OutsideTree = fsx.Tree{
 	{Path: "ext/dirchain", Kind: "symlink", Target: "d"},
 	{Path: "x/y/z/ext2", Kind: "dir", Mode: 0755},
 	{Path: "x/y/z/ext2/k", Kind: "file", Content: "OUT:ext2-k", Mode: 0644, Sec: 1400000007},
+	// a directory link inside ext: "ext/dl/.." is x/y/z for the operating system and ext when read as text;
+	// k2 and sub2 exist at both places, with equally long but different content and other modes
+	{Path: "ext/dl", Kind: "symlink", Target: "{R}/x/y/z/ext2"},
+	{Path: "ext/k2", Kind: "file", Content: "OUT:k2-textual", Mode: 0600, Sec: 1400000020},
+	{Path: "x/y/z/k2", Kind: "file", Content: "OUT:k2-physicl", Mode: 0644, Sec: 1400000021},
+	{Path: "ext/sub2/in-ext", Kind: "file", Content: "OUT:sub2-textual", Mode: 0600, Sec: 1400000022},
+	{Path: "x/y/z/sub2/in-z", Kind: "file", Content: "OUT:sub2-physical", Mode: 0644, Sec: 1400000023},
 	// an external directory whose walk fails part-way: two files, then a link to nothing
 	{Path: "x/y/faulty/a.tf", Kind: "file", Content: "OUT:faulty-a", Mode: 0644, Sec: 1400000008},
 	{Path: "x/y/faulty/b.tf", Kind: "file", Content: "OUT:faulty-b", Mode: 0644, Sec: 1400000009},
@@ -297,9 +304,9 @@ func build(specs []spec, cfg Config) fsx.Tree {
 				n.Target = "./" + n.Target
 			}
 		case "out-rel-file":
-			n.Target = ups + "../" + []string{"ext/f", "ext/d/g", "x/y/z/ext2/k", "ext/chain", "ext/chain2"}[pick%5]
+			n.Target = ups + "../" + []string{"ext/f", "ext/d/g", "x/y/z/ext2/k", "ext/chain", "ext/chain2", "ext/dl/../k2"}[pick%6]
 		case "out-rel-dir":
-			n.Target = ups + "../" + []string{"ext/d", "ext", "x/y/z/ext2", "ext/dirchain", "ext/d/e", "x/y/faulty"}[pick%6]
+			n.Target = ups + "../" + []string{"ext/d", "ext", "x/y/z/ext2", "ext/dirchain", "ext/d/e", "x/y/faulty", "ext/dl/../sub2"}[pick%7]
 		case "out-abs-file":
 			n.Target = "{R}/" + []string{"ext/f", "ext/d/g", "x/y/z/ext2/k", "ext/chain"}[pick%4]
 		case "out-abs-dir":
